@@ -552,9 +552,34 @@ example : bodyCheck { name := "t", code := [(.loadName "x", ["s"]), (.popJumpIfF
     (.capture, []), (.endCapture, ["s"]), (.loadName "y", ["s"]), (.buildMap 0, []),
     (.renderComponent "c" true, ["s"])] } = false := by decide +kernel
 
+/-- a `{% break %}` in a loop of the same chunk does not disturb it: the checker knows where the
+`Break` continues (the `end_ip` the loop's `Iterate` recorded) -/
+example : bodyCheck { name := "t", code := [(.loadName "items", ["s"]), (.startIterate false false, []),
+    (.storeLocal "i", []), (.iterate 8, []), (.loadName "i", ["s"]), (.popJumpIfFalse 7, []),
+    (.break_, []), (.jump 3, []), (.popLoop, []),
+    (.capture, []), (.writeText "b".toList, []), (.endCapture, ["s"]), (.buildMap 0, []),
+    (.renderComponent "c" true, ["s"]), (.writeTop, [])] } = true := by decide +kernel
+
+/-- … also when the loop is inside the captured body -/
+example : bodyCheck { name := "t", code := [(.capture, []),
+    (.loadName "items", ["s"]), (.startIterate false false, []),
+    (.storeLocal "i", []), (.iterate 9, []), (.loadName "i", ["s"]), (.popJumpIfFalse 8, []),
+    (.break_, []), (.jump 4, []), (.popLoop, []),
+    (.endCapture, ["s"]), (.buildMap 0, []),
+    (.renderComponent "c" true, ["s"]), (.writeTop, [])] } = true := by decide +kernel
+
 /-- the whole static check, evaluated: the example environment passes (with `safe` registered and
 unused) … -/
 example : c01StaticCheck exEnv = true := by decide +kernel
+
+/-- … `ParamHyp` has instances, so `C01Vm_static_check` applies to it in full: no guard, no
+hypothesis left but the context's -/
+example : ∀ text, render ⟨3, 100⟩ exEnv "t" none exCtx [] = .ok text →
+    ∀ x ∈ text, isSpecialChar x = true → LitChar exEnv x :=
+  fun text h => C01Vm_static_check ⟨3, 100⟩ exEnv "t" none exCtx [] (by decide +kernel)
+    ⟨exEnv_hyp.filters, exEnv_hyp.tests, exEnv_hyp.functions, exEnv_hyp.fmt⟩
+    (by intro kv hkv P; simp only [exCtx, List.mem_cons, List.not_mem_nil, or_false] at hkv; subst hkv; simp)
+    (by intro kv hkv; cases hkv) text h
 
 /-- … one whose listing applies `safe` does not … -/
 example : c01StaticCheck { exEnv with templates := [("t", { exTpl with chunk :=
